@@ -72,6 +72,18 @@ void buddy_dirty_mark(struct buddy_state *s, const void *p, size_t n) { (void)s;
 void vlogger(enum log_level l, char *f, unsigned n, const char *fmt, ...) { (void)l; (void)f; (void)n; (void)fmt; }
 
 #ifndef VERIF_NATIVE
+/* VERIF_STUB malloc: an object of exactly the requested size where the scenario checks the sizing (use_pool == false),
+ * a fixed-size slot otherwise (objects of symbolic size are expensive for the SAT encoding) */
+static bool use_pool;
+static unsigned char ck_pool[NLOGS + 1][512 + (NA + 1) * (sizeof(struct buddy_checkpoint) + (1U << B_TOTAL_EXP))];
+static unsigned ck_used;
+void *malloc(size_t n)
+{
+	if(!use_pool)
+		return __CPROVER_allocate(n, 0);
+	__CPROVER_assert(n <= sizeof(ck_pool[0]) && ck_used <= NLOGS, "C05.harness checkpoint pool large enough");
+	return ck_pool[ck_used++];
+}
 static void *released[8];
 static unsigned n_released;
 void free(void *p)
@@ -136,6 +148,9 @@ void h_take_modular(void)
 	VIN(unsigned, g);
 	VASSUME(g < NA);
 	uint_fast32_t size0 = S->full_ckpt_size;
+#ifndef VERIF_NATIVE
+	use_pool = false;
+#endif
 	model_allocator_checkpoint_take(S, ref);
 	VASSERT(array_count(S->logs) == 1 && S->logs.items[0].ref_i == ref && S->logs.items[0].c->ckpt_size == size0, "C05.take the log gains exactly (ref_i, checkpoint) with the accounted size");
 	VASSERT(g_taken[g] == (g < n_ar ? 1U : 0U), "C05.take every arena of the LP is saved exactly once");
@@ -152,8 +167,12 @@ void h_take_restore_modular(void)
 	VIN(unsigned, n_new);
 	VIN_ARR(uint32_t, junk_alloc, NA + 1);
 	VIN(unsigned, g);
-	VASSUME(n_ar + n_new <= NA && g < NA);
+	VASSUME(n_new <= NA && n_ar + n_new <= NA && g < NA);
 	uint32_t saved = g_alloc[g];
+#ifndef VERIF_NATIVE
+	use_pool = true;
+	ck_used = 0;
+#endif
 	model_allocator_checkpoint_take(S, 5);
 	/* undone events: allocate / free in the existing arenas and create n_new further arenas */
 	for(unsigned a = 0; a < NA; a++) {
